@@ -14,6 +14,8 @@ def run(rep, wd, plan, module="Trace_Refine", extra_case=None, note=None):
             continue
         c = gen.program_case(i + 1, p["lines"], p["opts"], p["scripts"], p.get("fuel", 200), r, {"tag": p.get("tag", "")})
         c["optstext"] = ",".join("%s=%s" % kv for kv in sorted(p["opts"].items()))
+        if p.get("cut"):
+            c["cut"] = True
         if extra_case:
             c.update(extra_case(p))
         cases.append(c)
@@ -97,6 +99,8 @@ def fixed_canaries(rep, wd, items, module="Trace_Refine", extra=None):
         c = gen.program_case(len(cases) + 1, lines, opts, scripts, 200, r2, {"tag": "canary"})
         if extra:
             c.update(extra)
+        if opts.get("default_str_storage", 32) != 32:
+            c["cut"] = True
         cases.append(c)
     if not cases:
         return
